@@ -485,6 +485,11 @@ var solvers = []solverSpec{
 	{"cvc5", func(f string, t, seed int) []string {
 		return []string{"cvc5", "--strings-exp", "--tlimit=" + strconv.Itoa(t*1000), "--seed=" + strconv.Itoa(seed), "--produce-models", f}
 	}},
+	// cvc5 without model production preprocesses differently and decides some string/quantifier goals
+	// that the model-producing configuration does not (an unsat answer needs no model)
+	{"cvc5-nomodel", func(f string, t, seed int) []string {
+		return []string{"cvc5", "--strings-exp", "--tlimit=" + strconv.Itoa(t*1000), "--seed=" + strconv.Itoa(seed), f}
+	}},
 	{"z3", func(f string, t, seed int) []string {
 		return []string{"z3", "-T:" + strconv.Itoa(t), "smt.random_seed=" + strconv.Itoa(seed), f}
 	}},
